@@ -7,10 +7,11 @@ import Driver.CrashDrv
 import Driver.WalFaultDrv
 import Driver.ConfigDrv
 import Driver.MemDrv
+import Driver.ApplierDrv
 open Driver
 
 def components : List (String × Component) :=
-  [("wal", WalDrv.component), ("sst", SstDrv.component), ("engine", EngineDrv.component), ("crash", CrashDrv.component), ("walfault", WalFaultDrv.component), ("config", ConfigDrv.component), ("mem", MemDrv.component), ("memconc", MemDrv.concComponent)]
+  [("wal", WalDrv.component), ("sst", SstDrv.component), ("engine", EngineDrv.component), ("crash", CrashDrv.component), ("walfault", WalFaultDrv.component), ("config", ConfigDrv.component), ("mem", MemDrv.component), ("memconc", MemDrv.concComponent), ("applier", ApplierDrv.component)]
 
 def main (args : List String) : IO UInt32 := do
   match args with
